@@ -25,7 +25,7 @@ import (
 
 func TestMain(m *testing.M) {
 	document.SetGlobalLevel(document.LogLevelSilent)
-	kit.TestMain(m, 1500, 12000)
+	kit.TestMain(m, 1000, 10000)
 }
 
 // Case: a document built by a history of API calls, then Cycles save/open cycles.
@@ -40,7 +40,7 @@ type Case struct {
 
 var weights = map[string]int{
 	// body elements
-	"para": 8, "fpara": 6, "heading": 3, "headingbm": 1, "headingbm2": 1, "pagebreak": 2, "listitem": 2, "bullet": 1, "numbered": 1,
+	"para": 8, "fpara": 6, "heading": 3, "headingbm": 1, "headingbm2": 1, "pagebreak": 4, "listitem": 2, "bullet": 1, "numbered": 1,
 	"math": 1, "mathlatex": 1, "inlinemath": 1, "toc": 1,
 	// paragraph setters
 	"align": 3, "spacing": 3, "indent": 3, "keepnext": 2, "keeplines": 2, "pbb": 2, "widow": 2, "outline": 2, "snap": 2, "pstyle": 2,
@@ -48,13 +48,13 @@ var weights = map[string]int{
 	// run level
 	"addtext": 6, "ppagebreak": 2, "pbold": 1, "pitalic": 1, "punderline": 1, "pstrike": 1, "phighlight": 1, "pfont": 1, "psize": 1, "pcolor": 1,
 	// tables
-	"table": 6, "celltext": 4, "cellftext": 2, "celladdtext": 2, "cellpara": 2, "cellfpara": 2, "celllist": 1, "cellfmt": 2, "cellfmtdir": 1, "cellimg": 1,
+	"table": 14, "celltext": 5, "cellftext": 2, "celladdtext": 2, "cellpara": 2, "cellfpara": 2, "celllist": 1, "cellfmt": 2, "cellfmtdir": 1, "cellimg": 1,
 	"nested": 2, "nestedh": 3, "insrow": 1, "approw": 1, "delrow": 1, "inscol": 1, "appcol": 1, "delcol": 1,
 	"mergeh": 3, "mergev": 3, "merger": 3, "unmerge": 1, "rowheight": 2, "rowheightrange": 1, "rowheader": 2, "headerrows": 1, "rowkeep": 1,
 	"tblstyle": 1, "tblborders": 1, "tblshading": 1, "cellshading": 1, "altrows": 1, "celldir": 2, "cellpad": 1, "cellborders": 2, "tblalign": 1,
 	"rmtblborders": 1, "rmcellborders": 1, "clearcell": 1, "clearcellfmt": 1, "clearcellparas": 1,
 	// pictures
-	"image": 3, "imagefile": 1, "imagefloat": 3, "imgalt": 1, "imgtitle": 1, "imgalign": 1,
+	"image": 4, "imagefile": 1, "imagefloat": 4, "imgalt": 1, "imgtitle": 1, "imgalign": 1,
 	// section
 	"pagesize": 1, "custompage": 1, "orient": 1, "margins": 1, "hfdist": 1, "gutter": 1, "docgrid": 1, "cleargrid": 1,
 	"header": 1, "footer": 1, "headerpn": 1, "footerpn": 1, "fheader": 1, "ffooter": 1, "difffirst": 1,
@@ -122,16 +122,122 @@ func sanitize(o *ops.Op) {
 	}
 }
 
+// tracker follows, on the generator side only, how many tables the history has created and their approximate
+// shapes, so that most table ops address existing rows/columns (the interpreter still resolves selectors by itself;
+// a wrong guess only yields an API error, which is a legal outcome).
+type dim struct{ r, c int }
+type tracker struct{ tabs []dim }
+
+func rng(t *rapid.T, lo, hi int, label string) int {
+	if hi < lo {
+		hi = lo
+	}
+	return rapid.IntRange(lo, hi).Draw(t, label)
+}
+
+func (tr *tracker) aim(t *rapid.T, o *ops.Op) {
+	switch o.K {
+	case "table":
+		if rapid.IntRange(0, 9).Draw(t, "shape") > 0 {
+			o.I[0], o.I[1] = rapid.IntRange(1, 6).Draw(t, "rows"), rapid.IntRange(1, 6).Draw(t, "cols")
+			if o.I[2] < 0 {
+				o.I[2] = 6000
+			}
+			if o.Grid != nil && len(o.Grid) > o.I[0] {
+				o.Grid = o.Grid[:o.I[0]]
+			}
+		}
+		if o.I[0] > 0 && o.I[1] > 0 {
+			tr.tabs = append(tr.tabs, dim{o.I[0], o.I[1]})
+		}
+		return
+	}
+	if len(tr.tabs) == 0 || len(o.I) == 0 {
+		return
+	}
+	if rapid.IntRange(0, 9).Draw(t, "aim") == 0 {
+		return // keep the unconstrained positions (out of range, -1, n, n+1)
+	}
+	ti := rapid.IntRange(0, len(tr.tabs)-1).Draw(t, "ti")
+	d := tr.tabs[ti]
+	row := func() int { return rng(t, 0, d.r-1, "row") }
+	col := func() int { return rng(t, 0, d.c-1, "col") }
+	span := func(n int, label string) (int, int) {
+		a := rng(t, 0, n-1, label+"a")
+		b := rng(t, a, n-1, label+"b")
+		if a == b && b+1 < n && rapid.Bool().Draw(t, label+"w") {
+			b++
+		}
+		return a, b
+	}
+	switch o.K {
+	case "celltext", "cellpara", "cellftext", "celladdtext", "cellfpara", "celllist", "cellfmt", "cellfmtdir", "cellimg", "cellshading", "celldir", "cellpad",
+		"cellborders", "rmcellborders", "clearcell", "clearcellfmt", "clearcellparas", "unmerge":
+		o.I[0], o.I[1], o.I[2] = ti, row(), col()
+	case "nested", "nestedh":
+		o.I[0], o.I[1], o.I[2] = ti, row(), col()
+		if rapid.IntRange(0, 5).Draw(t, "nshape") > 0 {
+			o.I[3], o.I[4] = rapid.IntRange(1, 3).Draw(t, "nrows"), rapid.IntRange(1, 3).Draw(t, "ncols")
+		}
+		if o.K == "nestedh" && o.I[3] > 0 && o.I[4] > 0 {
+			tr.tabs = append(tr.tabs, dim{o.I[3], o.I[4]})
+		}
+	case "mergeh":
+		a, b := span(d.c, "mh")
+		o.I[0], o.I[1], o.I[2], o.I[3] = ti, row(), a, b
+	case "mergev":
+		a, b := span(d.r, "mv")
+		o.I[0], o.I[1], o.I[2], o.I[3] = ti, a, b, col()
+	case "merger":
+		a, b := span(d.r, "mrr")
+		c1, c2 := span(d.c, "mrc")
+		o.I[0], o.I[1], o.I[2], o.I[3], o.I[4] = ti, a, b, c1, c2
+	case "rowheight", "rowheader", "rowkeep", "delrow":
+		o.I[0], o.I[1] = ti, row()
+		if o.K == "delrow" && d.r > 1 {
+			tr.tabs[ti].r--
+		}
+	case "insrow":
+		o.I[0], o.I[1] = ti, rng(t, 0, d.r, "irow")
+		tr.tabs[ti].r++
+	case "approw":
+		o.I[0] = ti
+		tr.tabs[ti].r++
+	case "headerrows", "rowheightrange":
+		a, b := span(d.r, "hr")
+		o.I[0], o.I[1], o.I[2] = ti, a, b
+	case "delcol":
+		o.I[0], o.I[1] = ti, col()
+		if d.c > 1 {
+			tr.tabs[ti].c--
+		}
+	case "inscol":
+		o.I[0], o.I[1] = ti, rng(t, 0, d.c, "icol")
+		tr.tabs[ti].c++
+	case "appcol":
+		o.I[0] = ti
+		tr.tabs[ti].c++
+	case "tblstyle", "tblborders", "tblshading", "altrows", "tblalign", "rmtblborders":
+		o.I[0] = ti
+	}
+}
+
 func genCase(t *rapid.T) Case {
 	var c Case
-	if rapid.IntRange(0, 2).Draw(t, "head") == 0 {
+	tr := &tracker{}
+	add := func(k string) {
+		o := drawOp(t, k)
+		tr.aim(t, &o)
+		c.Ops = append(c.Ops, o)
+	}
+	if rapid.IntRange(0, 1).Draw(t, "head") == 0 {
 		for _, k := range rapid.SampledFrom(scenarios).Draw(t, "scenario") {
-			c.Ops = append(c.Ops, drawOp(t, k))
+			add(k)
 		}
 	}
-	n := rapid.IntRange(1, kit.Scale(24, 45)).Draw(t, "nops")
+	n := rapid.IntRange(8, kit.Scale(30, 50)).Draw(t, "nops")
 	for i := 0; i < n; i++ {
-		c.Ops = append(c.Ops, drawOp(t, rapid.SampledFrom(kindList).Draw(t, "kind")))
+		add(rapid.SampledFrom(kindList).Draw(t, "kind"))
 	}
 	c.Cycles = rapid.SampledFrom([]int{1, 2, 2, 3, 3, 4}).Draw(t, "cycles")
 	c.File = rapid.IntRange(0, 3).Draw(t, "file") == 0
@@ -174,22 +280,90 @@ var rt1Options = &canon.Options{
 	},
 }
 
-// classSubtrees returns, per loss class, the serialised subtrees of that class in document order
-// (outermost only: a class subtree inside another class subtree belongs to the outer one).
-func classSubtrees(root *canon.Node) map[string][]string {
-	out := map[string][]string{}
-	var rec func(n *canon.Node)
-	rec = func(n *canon.Node) {
-		if id := classOfNode(n); id != "" {
-			out[id] = append(out[id], n.String())
-			return
+// classItem is one outermost loss-class subtree below some node.
+type classItem struct {
+	id   string
+	str  string // canonical form without the subtrees of other classes inside it
+	node *canon.Node
+}
+
+func collectClassItems(n *canon.Node, out *[]classItem) {
+	for _, k := range n.Kids {
+		if id := classOfNode(k); id != "" {
+			var b strings.Builder
+			writeStripped(&b, k, id)
+			*out = append(*out, classItem{id, b.String(), k})
+			continue
 		}
-		for _, k := range n.Kids {
-			rec(k)
+		collectClassItems(k, out)
+	}
+}
+
+// compareClasses judges every loss class separately: the sequences of outermost class subtrees below a and b are
+// compared per class (each rendered without the other classes' subtrees inside it); where a class's subtrees pair up
+// one to one, the comparison descends into the pairs, so that e.g. a picture lock lost inside a retained nested table is a
+// picLocks loss, while everything inside a lost nested table counts as part of that loss. fails: class -> first difference.
+func compareClasses(a, b *canon.Node, fails map[string]string) {
+	var la, lb []classItem
+	collectClassItems(a, &la)
+	collectClassItems(b, &lb)
+	by := func(l []classItem) map[string][]classItem {
+		m := map[string][]classItem{}
+		for _, it := range l {
+			m[it.id] = append(m[it.id], it)
+		}
+		return m
+	}
+	ma, mb := by(la), by(lb)
+	for _, cl := range classes {
+		ia, ib := ma[cl.ID], mb[cl.ID]
+		sa, sb := make([]string, len(ia)), make([]string, len(ib))
+		for i := range ia {
+			sa[i] = ia[i].str
+		}
+		for i := range ib {
+			sb[i] = ib[i].str
+		}
+		if d := seqDiff(sa, sb); d != "" {
+			if _, seen := fails[cl.ID]; !seen {
+				fails[cl.ID] = d
+			}
+		}
+		if len(ia) == len(ib) {
+			for i := range ia {
+				compareClasses(ia[i].node, ib[i].node, fails)
+			}
 		}
 	}
-	rec(root)
-	return out
+}
+
+// writeStripped renders n canonically, leaving out the loss-class subtrees inside it.
+func writeStripped(b *strings.Builder, n *canon.Node, own string) {
+	b.WriteString("<" + n.Name())
+	for _, a := range n.Attrs {
+		sp := a.Space
+		switch sp {
+		case canon.W:
+			sp = "w:"
+		case canon.R:
+			sp = "r:"
+		case "":
+		default:
+			sp = "{" + sp + "}"
+		}
+		fmt.Fprintf(b, " %s%s=%q", sp, a.Local, a.Value)
+	}
+	b.WriteString(">")
+	if n.Text != "" {
+		fmt.Fprintf(b, "%q", n.Text)
+	}
+	for _, k := range n.Kids {
+		if id := classOfNode(k); id != "" {
+			continue // listed (and judged) on its own by compareClasses
+		}
+		writeStripped(b, k, own)
+	}
+	b.WriteString("</>")
 }
 
 // blips lists the bytes (as hash) every a:blip outside loss-class subtrees resolves to, in document order.
@@ -346,6 +520,29 @@ var formatSetters = map[string]bool{"fpara": true, "addtext": true, "pbold": tru
 	"rowheightrange": true, "rowheader": true, "headerrows": true, "rowkeep": true, "tblalign": true, "margins": true, "pagesize": true, "custompage": true,
 	"orient": true, "hfdist": true, "gutter": true, "docgrid": true}
 
+var paraTarget = map[string]bool{"align": true, "spacing": true, "indent": true, "keepnext": true, "keeplines": true, "pbb": true, "widow": true, "outline": true,
+	"snap": true, "pstyle": true, "hrule": true, "pborder": true, "pformat": true, "addtext": true, "ppagebreak": true, "pbold": true, "pitalic": true, "punderline": true,
+	"pstrike": true, "phighlight": true, "pfont": true, "psize": true, "pcolor": true, "inlinemath": true, "rmpara": true}
+var imageTarget = map[string]bool{"imgalt": true, "imgtitle": true, "imgalign": true}
+var tableTarget = map[string]bool{"celltext": true, "cellpara": true, "cellftext": true, "celladdtext": true, "cellfpara": true, "celllist": true, "cellfmt": true,
+	"cellfmtdir": true, "cellimg": true, "cellshading": true, "celldir": true, "cellpad": true, "cellborders": true, "rmcellborders": true, "clearcell": true,
+	"clearcellfmt": true, "clearcellparas": true, "unmerge": true, "nested": true, "nestedh": true, "mergeh": true, "mergev": true, "merger": true, "rowheight": true,
+	"rowheader": true, "rowkeep": true, "delrow": true, "insrow": true, "approw": true, "headerrows": true, "rowheightrange": true, "delcol": true, "inscol": true,
+	"appcol": true, "tblstyle": true, "tblborders": true, "tblshading": true, "altrows": true, "tblalign": true, "rmtblborders": true}
+
+// hasTarget: the op has an object to act on (an op without one is a no-op of the interpreter, not an API call).
+func hasTarget(x *ops.Exec, k string) bool {
+	switch {
+	case paraTarget[k]:
+		return len(x.Paras) > 0
+	case tableTarget[k]:
+		return len(x.Tables) > 0
+	case imageTarget[k]:
+		return len(x.Images) > 0
+	}
+	return true
+}
+
 func run(c Case) *kit.Result {
 	res := &kit.Result{}
 	document.VerifResetGlobals()
@@ -361,6 +558,7 @@ func run(c Case) *kit.Result {
 			res.Label("str:" + cl)
 		}
 		var err error
+		target := hasTarget(x, op.K)
 		p, _ := kit.Try(func() {
 			if ops.IsExtra(op.K) {
 				err = x.DoExtra(op)
@@ -379,8 +577,10 @@ func run(c Case) *kit.Result {
 		e := "ok"
 		if err != nil {
 			e = "err"
-		} else {
+		} else if target {
 			okKinds[op.K] = true
+		} else {
+			e = "noop"
 		}
 		shape = append(shape, op.K+":"+e)
 	}
@@ -454,10 +654,13 @@ func run(c Case) *kit.Result {
 			feat["header-row"] = true
 		case n.Is(canon.W, "numPr"):
 			feat["list-item"] = true
-		case n.Is(canon.W, "t") && n.Text != strings.TrimSpace(n.Text):
-			feat["edge-whitespace-text"] = true
-		case n.Is(canon.W, "t") && strings.ContainsAny(n.Text, "\t\n\r"):
-			feat["tab-newline-text"] = true
+		case n.Is(canon.W, "t"):
+			if n.Text != strings.TrimSpace(n.Text) {
+				feat["edge-whitespace-text"] = true
+			}
+			if strings.ContainsAny(n.Text, "\t\n\r") {
+				feat["tab-newline-text"] = true
+			}
 		case n.Is(canon.W, "pgMar") || n.Is(canon.W, "pgSz"):
 			feat["page-settings"] = true
 		}
@@ -494,6 +697,15 @@ func run(c Case) *kit.Result {
 		res.Label("via:memory")
 	}
 	res.Nontrivial = (len(kinds) >= 3 || feat["merge-h"] || feat["merge-v"] || feat["nested-table"]) && nFmt >= 2 && c.Cycles >= 2
+	if len(kinds) >= 3 {
+		res.Label("rule:>=3-body-kinds")
+	}
+	if nFmt >= 2 {
+		res.Label("rule:>=2-format-setters")
+	}
+	if nPara >= 1 {
+		res.Label("rule:paragraph-setter")
+	}
 	sort.Strings(shape)
 	res.Shape = fmt.Sprintf("%v|c%d", dedup(shape), c.Cycles)
 
@@ -552,10 +764,11 @@ func run(c Case) *kit.Result {
 	if d := canon.Diff(s1.main, s2.main, rt1Options); d != "" {
 		res.Fail("C03.RT1", "main part of the first save vs main part saved after Open: %s", d)
 	}
-	t1, t2 := classSubtrees(s1.main), classSubtrees(s2.main)
+	lostXML := map[string]string{}
+	compareClasses(s1.main, s2.main, lostXML)
 	for _, cl := range classes {
 		res.Eval("C03.lost:" + cl.ID + "/RT1")
-		if d := seqDiff(t1[cl.ID], t2[cl.ID]); d != "" {
+		if d, bad := lostXML[cl.ID]; bad {
 			res.Fail("C03.lost:"+cl.ID+"/RT1", "%s elements of the first save vs after Open+save: %s", cl.ID, d)
 		}
 	}
@@ -672,7 +885,7 @@ func pageDiff(a, b *document.PageSettings) string {
 func TestC03(t *testing.T) {
 	kit.Main(t, kit.Spec[Case]{
 		ID: "C03", Level: "exploration",
-		Rule: "document built by 1-24 (thorough 1-45) generated API calls (paragraph/run/table/picture/section setters with their argument ranges, XML-expressible text) " +
+		Rule: "document built by 8-30 (thorough 8-50) generated API calls (paragraph/run/table/picture/section setters with their argument ranges, XML-expressible text) " +
 			"optionally preceded by a scenario prefix, then 1-4 save/open cycles through memory or a file; non-trivial = (>=3 kinds of body children or a merged/nested table) " +
 			"and >=2 distinct successful formatting setters and >=2 cycles; distinct = distinct set of (op kind, outcome) plus cycle count",
 		Gen: genCase, Run: run, Findings: findings,
